@@ -71,6 +71,37 @@ def outName : Option Fit.DecApi.Out → String
   | some .hang => "hang"
   | some _ => "other"
 
+/-- the last sentence of the property on the model: the decoded messages handed back to the encoder (`ofDecoded`), encoded
+under the same options, decoded again -/
+def reencode (l : Line) (fits : List Fit.DecApi.Fit) : String :=
+  let files : List FileIn := fits.map fun f =>
+    { hsize := f.hdr.size, hpv := f.hdr.protoVer, hprofile := f.hdr.profileVer, msgs := f.msgs.map ofDecoded }
+  let (kepts, bytes, err) := encodeChain l.c files 0
+  match err with
+  | some (i, e) => s!"{encErrName e}@{i}"
+  | none =>
+    let (fits2, e2) := decodeChain l.o bytes
+    match e2 with
+    | some o => "dec-" ++ outName (some o)
+    | none =>
+      -- `C01_e2e_reencode_partial`: what comes back is what validation retained of the decoded messages, values as they
+      -- are, each message with its timestamp where it was or in front
+      let got := fits2.map fun f => f.msgs.map proj
+      if kepts.length != got.length then "diff@count"
+      else
+        match (kepts.zip got).zipIdx.find? (fun p => !seqMatches idValue false l.o.fac l.c.w.arch {} p.1.1 p.1.2) with
+        | none => "same"
+        | some ((k, g), i) =>
+          if k.length != g.length then s!"diff@{i}"
+          else
+            -- first message whose decoded form is none of the allowed forms (the validator's look-ups threaded)
+            let rec firstBad (vst : Fit.Validator.State) : List Message → List NMsg → Nat → Nat
+              | m :: ms, n :: ns, j =>
+                let vst' := Fit.Validator.remember vst m.num m.fields
+                if (msgVariants idValue false l.o.fac l.c.w.arch vst'.fds m).contains n then firstBad vst' ms ns (j + 1) else j
+              | _, _, j => j
+            s!"diff@{i}.{firstBad {} k g 0}"
+
 def answer (l : Line) : String :=
   let (kept, bytes, err) := encodeChain l.c l.files 0
   let encS := match err with
@@ -79,7 +110,8 @@ def answer (l : Line) : String :=
   let vs := (kept.zipIdx.flatMap fun (ms, i) => ms.map fun m => s!"V{i}:{printMessage m}")
   let (fits, e) := decodeChain l.o bytes
   let ss := (fits.zipIdx.flatMap fun (f, i) => f.msgs.map fun m => s!"S{i}:{DecApi.showMsg m}")
-  " ".intercalate ([s!"enc={encS}"] ++ vs ++ [s!"dec={outName e}", s!"ns={fits.length}"] ++ ss)
+  let re := if e.isNone && !fits.isEmpty then reencode l fits else "-"
+  " ".intercalate ([s!"enc={encS}"] ++ vs ++ [s!"dec={outName e}", s!"ns={fits.length}"] ++ ss ++ [s!"re={re}"])
 
 /-! ### parsing the implementation's answer -/
 
@@ -126,6 +158,7 @@ structure Impl where
   dec : String
   ns : Nat
   seqs : List (List NMsg)
+  re : String
 
 def groupTok {α} (pre : String) (parse : String → Option α) (toks : List String) : Option (List (List α)) := do
   let mut acc : Array (Array α) := #[]
@@ -149,7 +182,8 @@ def parseImpl (s : String) : Option Impl := do
   let ns ← (toks.findSome? (stripPrefix? · "ns=")).bind String.toNat?
   let kept ← groupTok "V" parseMessage (toks.filter (·.startsWith "V"))
   let seqs ← groupTok "S" parseDMsg (toks.filter (·.startsWith "S"))
-  some ⟨enc, kept, dec, ns, seqs⟩
+  let re := (toks.findSome? (stripPrefix? · "re=")).getD "-"
+  some ⟨enc, kept, dec, ns, seqs, re⟩
 
 /-- component expansion can touch the fields of these messages (then only C05 can say what comes back) -/
 def expansionInert (fac : Fit.DecApi.Factory) (kept : List Message) : Bool :=
@@ -167,6 +201,7 @@ def prop (l : Line) (impl : String) : String :=
   | none => if impl == "bad-op" then "n/a" else "fail:answer"
   | some r =>
     if r.enc.startsWith "panic" then "fail:encode-panic"
+    else if r.re.startsWith "diff" || r.re.startsWith "dec-" || r.re == "panic" then s!"fail:reencode-{r.re}"
     else if r.kept.isEmpty then "n/a"                      -- nothing was accepted
     else if r.dec != "end" then s!"fail:decode-{r.dec}"
     else if r.ns != r.kept.length || r.seqs.length != r.kept.length then "fail:sequence-count"
@@ -188,8 +223,9 @@ def prop (l : Line) (impl : String) : String :=
 
 /-- finding classes, evaluated on what the MODEL's validator retains -/
 def kf (l : Line) : String :=
-  let (kept, _, _) := encodeChain l.c l.files 0
-  let ids := (if kept.any (kfZero l.o.fac) then ["KF-C01-zero"] else []) ++
+  let (kept, bytes, _) := encodeChain l.c l.files 0
+  let ids := (if kfBoolArr (decodeChain l.o bytes).1 then ["KF-C01-boolarr"] else []) ++
+    (if kept.any (kfZero l.o.fac) then ["KF-C01-zero"] else []) ++
     (if kept.any (kfArr l.o.fac) then ["KF-C01-arr"] else []) ++
     (if kept.any (kfFFFD l.o.fac) then ["KF-C01-fffd"] else [])
   if ids.isEmpty then "-" else ",".intercalate ids
